@@ -5,3 +5,4 @@ import MinterModel.Ledger
 import MinterModel.Kernels
 import MinterModel.Tx
 import MinterModel.Moves
+import MinterModel.Monitors
